@@ -3,6 +3,7 @@ From V.lib Require Import Base.
 From V.c13 Require Import C13Spec C13Model.
 From V.c15 Require Import C15Model C15Spec.
 From V.c15 Require Import C15HevcModel C15HevcSpec.
+From V.c15 Require Import C15HevcConfModel C15HevcConfSpec.
 Require Import ExtrOcamlBasic.
 Separate Extraction
   parse_sps_er parse_sps_br flat_sps
@@ -14,4 +15,5 @@ Separate Extraction
   derive_one derive_all d_num_delta d_num_used hrps_valid expected_himage_size
   hparse_pps_er hparse_pps_br flat_hpps hnalu_pps expected_hpps hpps_valid
   hparse_slice_er hparse_slice_br flat_hslice hnalu_slice expected_hslice hslice_valid hslice_rps_guard
-  hs_address_bits hs_poc_bits hs_num_pic_total_curr hs_l0 hs_l1 hs_lt_idx_bits hs_list_entry_bits.
+  hs_address_bits hs_poc_bits hs_num_pic_total_curr hs_l0 hs_l1 hs_lt_idx_bits hs_list_entry_bits
+  hconf_observe hconf_decode_observe expected_hconf_observe spec_hvcc nalus_fit hconf_depths_fit.
